@@ -376,6 +376,47 @@ def fam_nan() -> Iterator[dict]:
            "outs": {"out": 2, "out1": 3}}
 
 
+SCALARS = [
+    {"py": "int", "v": "-2"}, {"py": "int", "v": "3"}, {"py": "float", "v": "-2.0"},
+    {"py": "float", "v": "0.5"}, {"py": "float", "v": "-0.0"}, {"py": "float", "v": "inf"},
+    {"py": "float", "v": "-inf"}, {"py": "float", "v": "nan"}, {"py": "complex", "v": "(-1-2j)"},
+    {"py": "bool", "v": "True"},
+    {"np": "f4", "v": "-1.5"}, {"np": "f4", "v": "inf"}, {"np": "f4", "v": "-inf"},
+    {"np": "f4", "v": "nan"}, {"np": "f8", "v": "-2.0"}, {"np": "f8", "v": "inf"},
+    {"np": "f8", "v": "-inf"}, {"np": "i8", "v": "-3"}, {"np": "i4", "v": "2"},
+    {"np": "c16", "v": "(-1-2j)"}, {"np": "b1", "v": "True"},
+]
+
+
+def fam_scalars() -> Iterator[dict]:
+    """How a SCALAR CONSTANT is rendered in generated code: every binary operation x
+    both operand orders x a scalar of every kind (negative / non-finite / signed-zero
+    Python numbers, NumPy scalars of several types incl. non-finite single precision),
+    on a float64, an int64 and a float32 array; where() and full() with such a scalar."""
+    arrs = [{"name": "x", "shape": [3], "dtype": "f8", "kind": "ph", "data": [1.0, 2.0, 3.0]},
+            {"name": "k", "shape": [3], "dtype": "i8", "kind": "ph", "data": [1, 2, 3]},
+            {"name": "h", "shape": [3], "dtype": "f4", "kind": "ph", "data": [1.0, 2.0, 3.0]}]
+    ops = ("add", "sub", "mul", "truediv", "floordiv", "mod", "pow", "maximum", "minimum",
+           "lt", "ge", "eq", "ne")
+    for arr in arrs:
+        for si, sc in enumerate(SCALARS):
+            cplx = sc.get("py") == "complex" or sc.get("np", "").startswith("c")
+            for op in ops:
+                if cplx and op in ("floordiv", "mod", "maximum", "minimum", "lt", "ge"):
+                    continue
+                for order in ("xs", "sx"):
+                    call = {"op": op, "a": 1, "b": sc} if order == "xs" else \
+                        {"op": op, "a": sc, "b": 1}
+                    yield {"id": f"scalar/{arr['name']}/{op}/{order}{si}", "inputs": [arr],
+                           "calls": [call], "outs": {"out": 2}}
+            if not cplx:
+                yield {"id": f"scalar/{arr['name']}/where/{si}", "inputs": [arr],
+                       "calls": [{"op": "gt", "a": 1, "b": {"py": "int", "v": "1"}},
+                                 {"op": "where", "c": 2, "a": sc, "b": 1},
+                                 {"op": "where", "c": 2, "a": 1, "b": sc}],
+                       "outs": {"out": 3, "out_b": 4}}
+
+
 def fam_lpcall(rng: np.random.Generator, count: int) -> Iterator[dict]:
     """Random programs in which calls to hand-written loopy kernels are mixed
     with the arithmetic / structural alphabet (loopy target only)."""
